@@ -314,7 +314,7 @@ func init() {
 					}
 					// value derives from the message's Timestamp
 					uses := false
-					inspect(as.Rhs[0], func(m ast.Node) bool {
+					inspectValue(info, as.Rhs[0], func(m ast.Node) bool {
 						if sel, ok := m.(*ast.SelectorExpr); ok && (sel.Sel.Name == "Timestamp" || sel.Sel.Name == "GetTimestamp") {
 							uses = true
 						}
